@@ -22,6 +22,11 @@ partial def tree? : Sexp → Option Tree
       | Sexp.list [Sexp.atom key, t] => (tree? t).map fun t' => (key, t')
       | _ => none
     pure (.lazy (← asNat? sd) kids)
+  | .list (.atom "tc" :: .atom cls :: .atom fields :: kids) => do
+    let kids ← kids.mapM fun k => match k with
+      | Sexp.list [Sexp.atom key, t] => (tree? t).map fun t' => (key, t')
+      | _ => none
+    pure (.tclass cls fields kids)
   | _ => none
 
 partial def treeSx : Tree → Sexp
@@ -29,6 +34,7 @@ partial def treeSx : Tree → Sexp
   | .nontensor d b => .list [.atom "nt", .atom d, ofNats b]
   | .node b dev kids => .list (.atom "n" :: ofNats b :: .atom dev :: kids.map fun (k, t) => .list [.atom k, treeSx t])
   | .lazy sd kids => .list (.atom "lz" :: ofNat sd :: kids.map fun (k, t) => .list [.atom k, treeSx t])
+  | .tclass cls fields kids => .list (.atom "tc" :: .atom cls :: .atom fields :: kids.map fun (k, t) => .list [.atom k, treeSx t])
 
 def entrySx : String × MetaEntry → Sexp
   | (k, .leaf d s) => .list [.atom k, .atom "leaf", .atom d, ofNats s]
@@ -38,6 +44,7 @@ def fileSx : File → Sexp
   | .bytes b => .list [.atom "bytes", ofNat b.length]
   | .json m =>
     if m.kind = "NonTensorData" then .list [.atom "meta", .atom m.kind, .atom (m.payload.getD "none")]
+    else if m.kind ≠ "TensorDict" ∧ m.kind ≠ "LazyStackedTensorDict" then .list [.atom "meta", .atom m.kind, .atom (m.payload.getD "none")]
     else .list [.atom "meta", .atom m.kind, ofNats m.batch, .atom m.device, .list (m.entries.map entrySx)]
 
 def pathSx (p : Path) : Sexp := .list (p.map .atom)
